@@ -18,6 +18,10 @@ ASAN = ("exitcode=77:detect_leaks=0:allocator_may_return_null=1:abort_on_error=0
 FORMATS = [("wav16", 0x010002), ("wavf", 0x010006), ("wavex", 0x130002), ("rf64", 0x220002),
            ("aiff", 0x020002), ("caf", 0x180002), ("raw", 0x040002)]
 
+# formats of the route dimension: one per command-hook family (wav_command, aiff_command, none) + a float encoding (PEAK / CALC paths)
+ROUTE_FORMATS = [("wav16", 0x010002), ("wavf", 0x010006), ("aiff", 0x020002), ("raw", 0x040002)]
+PIPE_FORMATS = [("raw", 0x040002), ("au", 0x030002), ("wav16", 0x010002)]
+
 UNDEFINED = [0x0, 0x1, 0xFFF, 0x1003, 0x1004, 0x100F, 0x1016, 0x1022, 0x1029, 0x1046, 0x1052, 0x1062, 0x10F2,
              0x1102, 0x1202, 0x1211, 0x1307, 0x1402, 0x1502, 0x6000, 0x6002, 0x7FFFFFFF, 0x80000000, 0xFFFFFFFF]
 
@@ -403,6 +407,18 @@ def run(ctx):
     for (fname, fmt) in FORMATS:
         for (st, fl) in (("r", "used"), ("w", "rich"), ("w", "used"), ("rw", "rich"), ("rw", "used")):
             jobs.append((fname, fmt, st, fl, False))
+    # routes (round 5): psf->virtual_io and psf->sf.seekable / is_pipe are handle state that command guards read before they
+    # touch `data` (SFC_FILE_TRUNCATE returns early on SF_VIRTUAL_IO; SFC_CALC_* refuse a non-seekable handle), so every
+    # mode x {fresh, used} handle also exists on a real path, on a descriptor and -- where the container can be opened on
+    # one -- on a pipe (flavour suffix `@route`, harness/grid_c17.c)
+    for (fname, fmt) in ROUTE_FORMATS:
+        for route in ("path", "fd"):
+            for st in ("r", "w", "rw"):
+                for fl in ("plain", "used"):
+                    jobs.append((fname, fmt, st, "%s@%s" % (fl, route), False))
+    for (fname, fmt) in PIPE_FORMATS:
+        for (st, fl) in (("r", "plain"), ("r", "used"), ("w", "plain"), ("w", "used")):
+            jobs.append((fname, fmt, st, fl + "@pipe", False))
     # heavy ones first
     jobs.sort(key=lambda j: (0 if (j[4] and j[2] in ("w", "rw") and j[0] in ("wav16", "wavf", "rf64", "wavex")) else 1))
     results = []
@@ -463,5 +479,6 @@ def run(ctx):
     ctx.coverage["rule"] = ("complete enumeration: every SFC_* id of include/sndfile.h (%d) + %d undefined ids x datasize 0..sizeof(struct)+8, 4096, INT_MAX "
                             "x data in {NULL, exact block pre-filled 0xA5; for commands that read *data also zero / 01000000 / trailing-LF fills} "
                             "x handle {NULL, r, w, rw} x {WAV pcm16, WAV float, WAVEX, RF64, AIFF, CAF, RAW}, fresh handle per point; plus the same commands at "
-                            "boundary sizes on handles carrying metadata / written audio / diverging cursors. distinct_nontrivial counts (command id, handle state) "
+                            "boundary sizes on handles carrying metadata / written audio / diverging cursors, and on handles of the other ROUTES (sf_open on a path, sf_open_fd on a descriptor, "
+                            "sf_open_fd on a pipe: psf->virtual_io = 0, non-seekable) x {r, w, rw} x {fresh, used} x {WAV pcm16, WAV float, AIFF, RAW; pipe: RAW, AU, WAV}. distinct_nontrivial counts (command id, handle state) "
                             "pairs on which the call wrote data, changed the handle or returned non-zero" % (len(named), len(ids) - len(named)))
